@@ -41,7 +41,7 @@ def reload(t):
 
 @st.composite
 def _case(draw):
-    mode = draw(st.sampled_from(["static-outline", "static-outline", "static-outline", "static-layout", "static-layout", "masters-union", "variable-sparse"]))
+    mode = draw(st.sampled_from(["static-outline", "static-outline", "static-outline", "static-layout", "static-layout", "masters-union", "variable-sparse", "variable-sparse"]))
     module = draw(st.sampled_from(["ufoLib2", "defcon"]))
     if mode == "static-outline":
         spec = draw(gen.outline_font(max_glyphs=7))
@@ -125,7 +125,7 @@ def _case(draw):
         "base": base,
         "masters": [{"k": 0, "loc": {"Weight": 0}}, {"k": 1, "loc": {"Weight": 1000}}],
         "axes": [{"name": "Weight", "tag": "wght", "minimum": 0, "default": 0, "maximum": 1000}],
-        "amp": draw(st.sampled_from([0.5, 1.5])),
+        "amp": draw(st.sampled_from([1.5, 3.0])),
         "sparse": {"k": 5, "loc": {"Weight": draw(st.sampled_from([300, 500, 700]))}, "names": draw(st.sampled_from([["inner"], ["inner"], ["inner", "plain"]]))},
         "lib": {},
     }
@@ -138,7 +138,19 @@ def _case(draw):
         if draw(st.booleans()):
             fam["masters"].append({"k": 3, "loc": {"Weight": 1000, "Slant": -10}})
         fam["sparse"]["loc"]["Slant"] = 0
-    return {"mode": mode, "module": module, "fam": fam, "skip": skip, "flavour": draw(st.sampled_from(["ttf", "ttf", "cff2"]))}
+    case = {"mode": mode, "module": module, "fam": fam, "skip": skip, "flavour": draw(st.sampled_from(["ttf", "ttf", "cff2"]))}
+    if draw(st.integers(0, 4)) == 0:
+        case["lists_in_ufos_only"] = True
+    if len(fam["axes"]) > 1 and draw(st.booleans()):
+        # the second axis' default is a non-zero design coordinate, and sources leave out the axes on which they sit at the default
+        fam["axes"][1] = {"name": "Slant", "tag": "slnt", "minimum": -10, "default": 0, "maximum": 0, "map": [[-10, 0], [0, 20]]}
+        for m in fam["masters"]:
+            m["loc"]["Slant"] = 20 if m["loc"]["Slant"] == 0 else 0
+        fam["sparse"]["loc"]["Slant"] = 20
+        fam["partial_locations"] = True
+    if draw(st.booleans()):
+        case["via_interpolatable"] = True   # compileInterpolatable*FromDS, then varLib.build on its result (the two-step route)
+    return case
 
 
 def strategy(tier):
@@ -405,6 +417,14 @@ def run_variable_sparse(case, ctx):
     fam, skip, flavour = case["fam"], case["skip"], case["flavour"]
     module = S.ufo_module(case["module"])
     comp = ufo2ft.compileVariableTTF if flavour == "ttf" else ufo2ft.compileVariableCFF2
+    if case.get("via_interpolatable"):
+        from fontTools import varLib
+
+        def comp(ds_, **kw_):  # noqa: F811
+            res = (ufo2ft.compileInterpolatableTTFsFromDS if flavour == "ttf" else ufo2ft.compileInterpolatableOTFsFromDS)(ds_, **kw_)
+            return varLib.build(res)[0]
+
+        ctx.label("two-step-route(interpolatable masters + varLib.build)")
     from fontTools.cu2qu.errors import Error as Cu2QuError
 
     try:
@@ -412,13 +432,22 @@ def run_variable_sparse(case, ctx):
             ds, _ = F.build_designspace(fam, module)
             full = reload(comp(ds, useProductionNames=False, featureWriters=[]))
         fam2 = copy.deepcopy(fam)
-        fam2["lib"] = {"public.skipExportGlyphs": list(skip)}
+        if case.get("lists_in_ufos_only"):
+            # the designspace has no skip list of its own: for a designspace build the lists stored in the source UFOs do not count (documented)
+            fam2["base"].setdefault("lib", {})["public.skipExportGlyphs"] = list(skip)
+        else:
+            fam2["lib"] = {"public.skipExportGlyphs": list(skip)}
         with guard("compileVariable with skip list", allowed=(Cu2QuError,)):
             ds2, _ = F.build_designspace(fam2, module)
             sub = reload(comp(ds2, useProductionNames=False, featureWriters=[]))
     except Cu2QuError:
         raise Discard("cu2qu could not approximate a curve")
-    common_absence(full, sub, skip)
+    if case.get("lists_in_ufos_only"):
+        ctx.label("skip-lists-in-source-ufos-only(designspace build ignores them)")
+        if sub.getGlyphOrder() != full.getGlyphOrder():
+            raise Violation("a designspace build without a skip list of its own applied the lists stored in the source UFOs", missing=sorted(set(full.getGlyphOrder()) - set(sub.getGlyphOrder())), ufo_lists=skip)
+    else:
+        common_absence(full, sub, skip)
     two = len(fam["axes"]) > 1
     locs = [{"wght": w} for w in sorted({0, 1000, fam["sparse"]["loc"]["Weight"], 150, 850})]
     if two:
